@@ -38,12 +38,13 @@ class JointDegreeCover(JointDegree):
         indxs = [i for i, top in enumerate(zip(*jds)) if not any(top)]
 
         # use the indexes of the zero columns to remove
-        for i in indxs:
+        # (highest index first so that earlier deletions do not shift later ones)
+        for i in reversed(indxs):
             for jd in jds:
                 del jd[i]
 
         # convert jds to jdd
-        self.convert_jds_to_jdd(jds)
+        self.convert_jds_to_jdd([tuple(jd) for jd in jds])
 
     @property
     def cover(self) -> list:
